@@ -147,7 +147,7 @@ func drawPSCase(rt *rapid.T, maxPubOps, maxLives int) psCase {
 	// a share of the histories is long: one publisher moves the objects more
 	// often than the default fence LIMIT of 100, and every fence notifies on
 	// every write
-	long := writes && rapid.IntRange(0, 24).Draw(rt, "long") == 0
+	long := writes && rapid.IntRange(0, 39).Draw(rt, "long") == 0
 	if long {
 		for i := range p.Fences {
 			p.Fences[i].Detect = nil
